@@ -4,7 +4,8 @@
 set -u
 SID=$1; PROP=${2:-$(echo $SID | cut -c1-3)}
 D=/verif/seeded/$SID
-WT=/tmp/confirm_wt
+SLOT=${SLOT:-}
+WT=/tmp/confirm_wt$SLOT
 [ -d $WT ] || git -C /repo worktree add -q --detach $WT HEAD
 DEMO=$(ls $D | grep -E '^demo.*\.py$' | head -1)
 [ -n "$DEMO" ] || { echo "no demo in $D"; exit 2; }
@@ -12,12 +13,12 @@ cd $WT || exit 2
 git checkout -q -- . ; git clean -qfd
 git checkout -q --detach $(git -C /repo rev-parse HEAD) || exit 2
 cp $D/$DEMO $WT/$DEMO
-PYTHONPATH=$WT/python timeout 900 /venv/bin/python -W ignore $DEMO > /tmp/_re_clean.log 2>&1; RC_CLEAN=$?
+PYTHONPATH=$WT/python timeout 900 /venv/bin/python -W ignore $DEMO > /tmp/_re${SLOT}_clean.log 2>&1; RC_CLEAN=$?
 git apply $D/patch.diff || { echo "patch does not apply at HEAD"; exit 2; }
-PYTHONPATH=$WT/python timeout 900 /venv/bin/python -W ignore $DEMO > /tmp/_re_patched.log 2>&1; RC_PATCHED=$?
+PYTHONPATH=$WT/python timeout 900 /venv/bin/python -W ignore $DEMO > /tmp/_re${SLOT}_patched.log 2>&1; RC_PATCHED=$?
 echo "$SID demo: clean rc=$RC_CLEAN patched rc=$RC_PATCHED"
-cp /verif/evidence/$PROP.json /tmp/_ev_backup_$PROP.json 2>/dev/null; cd /verif && PYTHONPATH=$WT/python timeout 3000 ./check $PROP --tier quick > /tmp/_re_check.log 2>&1; CRC=$?
-grep -E "^VIOLATION|tier=" /tmp/_re_check.log | head -2 | cut -c1-200
+cp /verif/evidence/$PROP.json /tmp/_ev_backup_$PROP.json 2>/dev/null; cd /verif && PYTHONPATH=$WT/python timeout 3000 ./check $PROP --tier quick > /tmp/_re${SLOT}_check.log 2>&1; CRC=$?
+grep -E "^VIOLATION|tier=" /tmp/_re${SLOT}_check.log | head -2 | cut -c1-200
 echo "$SID check $PROP rc=$CRC"; cp /tmp/_ev_backup_$PROP.json /verif/evidence/$PROP.json 2>/dev/null
 cat > $D/confirm.json <<J
 {"seed": "$SID", "property": "$PROP", "demo_rc_clean": $RC_CLEAN, "demo_rc_patched": $RC_PATCHED, "repo_tests": "", "repo_tests_rc": "skipped", "quick_check_rc_on_patched_tree": $CRC}
